@@ -380,6 +380,11 @@ func (g *gen) families12() {
 	for _, b := range genBases() {
 		g.zipFamily(b)
 	}
+	for bi, b := range weightOnly {
+		if bi%7 == 0 {
+			g.zipMultiFamily(b)
+		}
+	}
 	// W. seeded multi-fault search and torn v1->v2 weight updates until the budget is used
 	g.random12(weightOnly)
 }
